@@ -6,6 +6,7 @@
 package vsync
 
 import (
+	"bytes"
 	"fmt"
 	"sort"
 	"sync"
@@ -263,36 +264,50 @@ var (
 	PoisonBytes bool
 	PoisonHook  func(what string)
 	poisonMu    sync.Mutex
-	poisoned    = map[*[]byte]*Pool{}
+	poisoned    = map[any]*Pool{}
 )
+
+// region: the bytes a pooled object owns (whole capacity) - a *[]byte or a *bytes.Buffer; nil for anything else
+func region(x any) []byte {
+	switch b := x.(type) {
+	case *[]byte:
+		if b != nil {
+			return (*b)[:cap(*b)]
+		}
+	case *bytes.Buffer:
+		if b != nil {
+			r := b.Bytes()
+			return r[:cap(r)]
+		}
+	}
+	return nil
+}
 
 const poisonByte = 0xDB
 
 func poison(p *Pool, x any) {
-	if b, ok := x.(*[]byte); ok && b != nil {
-		full := (*b)[:cap(*b)]
+	if full := region(x); full != nil {
 		for i := range full {
 			full[i] = poisonByte
 		}
 		poisonMu.Lock()
-		poisoned[b] = p
+		poisoned[x] = p
 		poisonMu.Unlock()
 	}
 }
 
 func checkPoison(x any, when string) {
-	b, ok := x.(*[]byte)
-	if !ok || b == nil {
+	full := region(x)
+	if full == nil {
 		return
 	}
 	poisonMu.Lock()
-	_, was := poisoned[b]
-	delete(poisoned, b)
+	_, was := poisoned[x]
+	delete(poisoned, x)
 	poisonMu.Unlock()
 	if !was {
 		return
 	}
-	full := (*b)[:cap(*b)]
 	for i, c := range full {
 		if c != poisonByte {
 			j := i
@@ -310,7 +325,7 @@ func checkPoison(x any, when string) {
 // VerifyPoison checks every buffer that currently sits in a pool.
 func VerifyPoison(when string) {
 	poisonMu.Lock()
-	var l []*[]byte
+	var l []any
 	for b := range poisoned {
 		l = append(l, b)
 	}
@@ -322,7 +337,7 @@ func VerifyPoison(when string) {
 		if !still {
 			continue
 		}
-		full := (*b)[:cap(*b)]
+		full := region(b)
 		for i, c := range full {
 			if c != poisonByte {
 				j := i
